@@ -329,6 +329,9 @@ func cp(code, id byte, data []byte) []byte {
 	return (&pppoe.LCPPacket{Code: code, Identifier: id, Data: data}).Serialize()
 }
 
+// ownMagic is the LCP magic number the harness configures (so that "own magic" packets exist).
+const ownMagic = 0x5a5a0001
+
 type automaton interface {
 	Up()
 	Open()
@@ -393,6 +396,7 @@ func runAutomaton(e int, p []uint64, d []byte) Out {
 	case ELcpRecv:
 		cfg := pppoe.DefaultLCPConfig()
 		cfg.RestartTimer = time.Hour
+		cfg.MagicNumber = ownMagic
 		m, err := pppoe.NewLCPStateMachine(cfg, rec.send, nop)
 		if err != nil {
 			panic(err)
@@ -428,14 +432,26 @@ func runAutomaton(e int, p []uint64, d []byte) Out {
 	base := len(rec.pkts)
 	rec.mu.Unlock()
 	in := append([]byte(nil), d...)
-	return guarded(5*time.Second, func() Out {
+	return guarded(2*time.Second, func() Out {
 		err := a.ReceivePacket(in)
+		// follow-up call on the same machine inside the time limit: a handler that returned but
+		// left the automaton's lock held (or deadlocked on it) shows up as a HANG here
+		after := state()
 		if err != nil {
 			return errOut()
 		}
 		var rows [][]uint64
 		rec.mu.Lock()
 		defer rec.mu.Unlock()
+		if e == ELcpRecv {
+			for _, pk := range rec.pkts[base:] {
+				if len(pk.data) >= 4 && pk.data[0] == pppoe.LCPCodeTermRequest { // identifier projected out
+					rows = append(rows, append([]uint64{5}, b2r(pk.data[4:])...))
+				}
+			}
+		}
+		stateRow := len(in) > 0 && ((e == ELcpRecv && (in[0] == 7 || in[0] == 8)) ||
+			(e == EIpcpRecv && (in[0] == 0 || in[0] > 6)) || (e == EIp6cpRecv && (in[0] == 0 || in[0] > 6)))
 		if e == ELcpRecv {
 			for _, pk := range rec.pkts[base:] {
 				if len(pk.data) >= 4 && pk.data[0] == pppoe.LCPCodeEchoReply {
@@ -452,6 +468,9 @@ func runAutomaton(e int, p []uint64, d []byte) Out {
 				}
 			}
 		}
+		if stateRow {
+			rows = append(rows, []uint64{99, uint64(after)})
+		}
 		return ok(rows...)
 	})
 }
@@ -464,6 +483,7 @@ func lastIDFor(e, st int) uint64 {
 	case ELcpRecv:
 		cfg := pppoe.DefaultLCPConfig()
 		cfg.RestartTimer = time.Hour
+		cfg.MagicNumber = ownMagic
 		m, _ := pppoe.NewLCPStateMachine(cfg, rec.send, nop)
 		a = m
 	case EIpcpRecv:
@@ -503,7 +523,9 @@ func runAuth(p []uint64, d []byte) Out {
 	base := len(rec.pkts)
 	in := append([]byte(nil), d...)
 	return guarded(5*time.Second, func() Out {
-		if err := a.ReceivePacket(proto, in); err != nil {
+		err := a.ReceivePacket(proto, in)
+		_ = a.GetState() // follow-up call: the authenticator's lock must be free again
+		if err != nil {
 			return errOut()
 		}
 		var rows [][]uint64
